@@ -81,6 +81,14 @@ type fnVC struct {
 	safety  []string
 	curBlk  *ssa.BasicBlock
 	spawned []*ssa.Go
+	closures   []closureRec
+	parent     *fnVC
+	parentBlk  int
+	startState *State
+	baseReach  *T
+	onReturn   func(i *ssa.Return, st *State)
+	reachOverride *T
+	iterOrd    map[ssa.Instruction]int
 	ancCache map[int]map[int]bool
 	ifaceNames []string
 	instrTag map[ssa.Instruction]string
@@ -258,7 +266,13 @@ func (v *fnVC) oblige(kind, name string, props []string, clause string, pos stri
 	v.obls = append(v.obls, o)
 	o.values = v.modelTerms()
 	o.vc = v
-	if v.curBlk != nil {
+	if v.parent != nil {
+		r := v
+		for r.parent.parent != nil {
+			r = r.parent
+		}
+		o.keep = r.parent.ancestors(r.parentBlk)
+	} else if v.curBlk != nil {
 		o.keep = v.ancestors(v.curBlk.Index)
 	}
 	// after the check, the fact may be assumed
@@ -409,6 +423,9 @@ func (v *fnVC) assumeWellFormed(t *T, st *State) {
 }
 
 func (v *fnVC) reachNow() *T {
+	if v.reachOverride != nil {
+		return v.reachOverride
+	}
 	if v.curBlk == nil {
 		return tTrue()
 	}
@@ -439,13 +456,26 @@ func (v *fnVC) exFor(cur, old *State, extra map[string]*T) *Ex {
 func (v *fnVC) block(b *ssa.BasicBlock) {
 	v.curBlk = b
 	v.e.curBlk = b.Index
+	if v.parent != nil {
+		r := v
+		for r.parent != nil {
+			v.e.curBlk = r.parentBlk
+			r = r.parent
+		}
+	}
 	e := v.e
 	var st *State
 	isHeader := v.loops[b.Index] != nil
 	// reach + merged state
-	if b.Index == 0 {
+	if b.Index == 0 && v.parent != nil {
+		v.reach[0] = v.baseReach
+		st = v.startState.clone()
+	} else if b.Index == 0 {
 		v.reach[0] = tTrue()
 		st = v.entry.clone()
+		if v.ct != nil && v.ct.YieldN != "" {
+			v.producerInit(st)
+		}
 	} else {
 		var edges []*T
 		var preds []*ssa.BasicBlock
@@ -461,6 +491,10 @@ func (v *fnVC) block(b *ssa.BasicBlock) {
 			preds = append(preds, p)
 		}
 		rname := fmt.Sprintf("R$%d", b.Index)
+		if v.parent != nil {
+			v.e.fresh++
+			rname = fmt.Sprintf("R$c%d$%d", v.e.fresh, b.Index)
+		}
 		e.declConst(rname, sBool)
 		e.assume(tEq(mk(rname, sBool), tOr(edges...)))
 		v.reach[b.Index] = mk(rname, sBool)
@@ -799,6 +833,7 @@ func (v *fnVC) modelTerms() []string {
 // computeOrdinals numbers returns, and call sites per callee, in block/instruction order.
 func (v *fnVC) computeOrdinals() {
 	v.ordinal = map[ssa.Instruction]int{}
+	v.iterOrd = map[ssa.Instruction]int{}
 	v.instrTag = map[ssa.Instruction]string{}
 	count := map[string]int{}
 	for _, b := range v.fn.Blocks {
@@ -834,6 +869,10 @@ func (v *fnVC) computeOrdinals() {
 			if key != "" {
 				v.ordinal[in] = count[key]
 				count[key]++
+			}
+			if ci, ok := in.(ssa.CallInstruction); ok && yieldClosureArg(ci.Common()) != nil {
+				v.iterOrd[in] = count["iter"]
+				count["iter"]++
 			}
 		}
 	}
@@ -889,7 +928,32 @@ func (v *fnVC) havocCallWrites(in ssa.CallInstruction, st *State) {
 				v.havocFuncBody(yc.Fn.(*ssa.Function), st)
 				return
 			}
-			st.havocAll()
+			if v.isYieldParam(c.Value) {
+				return
+			}
+			cands := v.candidates(c.Signature())
+			if len(cands) == 0 {
+				st.havocAll()
+				return
+			}
+			for _, cd := range cands {
+				cct := v.w.specs.Contracts[funcKey(cd.fn)]
+				if cct == nil || !cct.HasAsg || containsStr(cct.Assigns, "*") {
+					st.havocAll()
+					return
+				}
+				var nm []string
+				var pt []types.Type
+				for _, p := range cd.fn.FreeVars {
+					nm = append(nm, p.Name())
+					pt = append(pt, p.Type())
+				}
+				for _, p := range cd.fn.Params {
+					nm = append(nm, p.Name())
+					pt = append(pt, p.Type())
+				}
+				v.havocByContract(cct, nm, pt, in, st)
+			}
 			return
 		}
 		ct = v.w.specs.Contracts[funcKey(fn)]
@@ -921,8 +985,12 @@ func (v *fnVC) havocCallWrites(in ssa.CallInstruction, st *State) {
 	if len(ct.ParamNm) > 0 {
 		names = ct.ParamNm
 	}
-	// evaluate the assigns locations on dummy arguments in a scratch state and
-	// havoc every heap they touch
+	v.havocByContract(ct, names, ptypes, in, st)
+}
+
+// havocByContract evaluates the contract's assigns locations on dummy arguments
+// in a scratch state and havocs (whole) every heap they touch.
+func (v *fnVC) havocByContract(ct *Contract, names []string, ptypes []types.Type, in ssa.CallInstruction, st *State) {
 	scratch := v.e.newState()
 	scratch.havocAll()
 	x := &Ex{enc: v.e, w: v.w, pkg: v.fn.Pkg.Pkg, vars: map[string]*T{}, lets: map[string]string{}, cur: scratch, old: scratch}
